@@ -19,7 +19,6 @@ import (
 	"math"
 
 	"github.com/B1NARY-GR0UP/originium/types"
-	"github.com/B1NARY-GR0UP/originium/utils"
 )
 
 var (
@@ -47,8 +46,9 @@ type Txn struct {
 
 	readTs uint64
 
-	readsFp  []uint64
-	writesFp map[uint64]struct{}
+	// keys read from the db and keys written, used for conflict detection
+	reads  []string
+	writes map[string]struct{}
 
 	pendingWrites map[types.Key]types.Entry
 }
@@ -129,12 +129,12 @@ func (t *Txn) Get(key string) ([]byte, bool) {
 			}
 			return v.Value, true
 		}
-		// Q: Why is not need to record readFp when read hit the cache?
-		// A: Record readFp is for conflict detection, a conflict will occur when reading a key modified by a committed txn.
+		// Q: Why is not need to record the read when read hit the cache?
+		// A: Record the read is for conflict detection, a conflict will occur when reading a key modified by a committed txn.
 		// Data stored in cache belongs to current txn, other txn will not be able to view these changes.
 		//
-		// record read fingerprint
-		t.readsFp = append(t.readsFp, utils.Hash(key))
+		// record read key
+		t.reads = append(t.reads, key)
 	}
 
 	return t.db.search(types.KeyWithTs(key, t.readTs))
@@ -173,8 +173,8 @@ func (t *Txn) modify(e types.Entry) error {
 		return ErrValueTooLarge
 	}
 
-	// record key fingerprint
-	t.writesFp[utils.Hash(e.Key)] = struct{}{}
+	// record written key
+	t.writes[e.Key] = struct{}{}
 	// memory storage writer buffer
 	t.pendingWrites[e.Key] = e
 	return nil
